@@ -617,6 +617,16 @@ def oracle(c):
                 i, j = int(v.uv[0] * (su - 1)), int(v.uv[1] * (sv - 1))
                 if list(v.data) != list(ev[j + i * sv]):
                     return "vertex %d differs from evaluated point (%d,%d)" % (v.id, i, j)
+        # tessellating again (force=True: no reset in between; also what render(force=True) / the container do) gives the same mesh
+        first = ([(v.id, list(v.data), list(v.uv)) for v in vs], [list(f.data) for f in fs])
+        try:
+            s.tessellate(vertex_spacing=d['s'], force=True)
+        except Exception as e:
+            return "a second Surface.tessellate(force=True) raises %s: %s" % (type(e).__name__, e)
+        vs2, fs2 = s.tessellator.vertices, s.tessellator.faces
+        if ([(v.id, list(v.data), list(v.uv)) for v in vs2], [list(f.data) for f in fs2]) != first:
+            return "tessellating the unchanged surface a second time (force=True) gives another mesh: %d vertices / %d faces, first time %d / %d" % (
+                len(vs2), len(fs2), len(first[0]), len(first[1]))
         return None
     if k.startswith('exp-'):
         what = d['what']
